@@ -90,3 +90,8 @@ fn stacked(w: &mut Zoo) {
 fn re_slice_with_step(w: &mut Zoo, words: &[String], #[step] s: &Step) {
     w.n += words.len() as i64;
 }
+
+#[when(expr = "there is/are (a )cucumber(s) in the basket")]
+fn expr_no_params(w: &mut Zoo) {
+    w.n += 1;
+}
